@@ -3,7 +3,7 @@
    smaller exact value (monotone rounding), so elements whose rounded cycles differ are in exact order. *)
 From Coq Require Import ZArith Reals Psatz Floats Bool List Lia Sorting.Permutation Sorting.Sorted.
 From Flocq Require Import Core BinarySingleNaN PrimFloat.
-From PB Require Import Proofs.TwoSumExact Model.Phase2 Model.PhaseOrd Proofs.Floor Proofs.DayFrac Proofs.DayFrac3 Proofs.PhaseCmpAll Proofs.PhaseArgmin.
+From PB Require Import Proofs.TwoSumExact Model.Phase2 Model.PhaseOrd Proofs.Floor Proofs.DayFrac Proofs.DayFrac3 Proofs.DayFracTail Proofs.DayFracFold Proofs.PhaseCmpAll Proofs.PhaseArgmin.
 Import ListNotations.
 
 (* ---------- generic stable insertion sort ---------- *)
